@@ -82,6 +82,8 @@ def clenshaw_rules(run, db):
         node, fr = captured['node'], captured['frame']
         pre = list(stores)
         del stores[:]
+        if not isinstance(node.target, ast.Name):
+            raise AnalysisError('%s: the sweep does not run over a single index (it unpacks `%s`): the step is not followed as a function of the index' % (qual, ast.unparse(node.target)))
         fr.env[node.target.id] = dom.sym('n')
         # scalars carried from one pass to the next (a coefficient fetched for one order and used by the next): induction over the
         # sweep.  The pass is run with each of them a fresh symbol; what it leaves behind, as a function of the index, is what the next
@@ -314,6 +316,8 @@ def assembly_rules(run, db):
     if not sn:
         raise AnalysisError('Qbfs: sweep not found')
     P0, P1, cc = [dom.rat(sn[0].env.get(k)) for k in ('Pnm2', 'Pnm1', 'c')]
+    if P0 is None or P1 is None or cc is None:
+        raise AnalysisError('Qbfs: the starting polynomials / multiplier of the sweep are not held in the locals this rule reads (Pnm2, Pnm1, c)')
     usq = Rat(R.atom('usq'))
     u2 = Rat(R.atom('u')) * Rat(R.atom('u'))
     P0, P1, cc = [v.subs({'u': Rat(R.sqrt(usq))}) if v is not None else None for v in (P0, P1, cc)]
